@@ -362,20 +362,18 @@ class State:
             lo, hi = (None if lo is None else G * lo + c), (None if hi is None else G * hi + c)
         else:
             lo, hi = (None if hi is None else G * hi + c), (None if lo is None else G * lo + c)
-        if depth < 1 and len(p) > 2 and self.forms:
+        if depth < 1 and self.forms:
             # one-step decomposition p = k*f + rest over the recorded forms f (tightens sums of a bounded form and bounded atoms)
             for fkey, (flo, fhi, _ex) in list(self.forms.items()):
-                if len(fkey) >= len(p) or len(fkey) < 2:
+                if len(fkey) < 2:
                     continue
                 m0, v0 = fkey[0]
                 pv = p.get(m0)
                 if pv is None or pv % v0 != 0:
                     continue
-                if any(m not in p for m, _ in fkey):
-                    continue
                 k = pv // v0
                 rest = padd(p, dict(fkey), -k)
-                if len(rest) >= len(p):
+                if len(rest) >= len(p) and len(rest) > 2:
                     continue
                 rlo, rhi = self.range_of(rest, depth + 1)
                 a, b = (flo, fhi) if k > 0 else (fhi, flo)
@@ -405,13 +403,8 @@ class State:
         if c is not None:
             return frozenset(((c > 0) - (c < 0),))
         qkey, q, G, c = self.decompose(p)
-        lo, hi, excl = self.form_itv(qkey, q)
-        if G > 0:
-            plo = None if lo is None else G * lo + c
-            phi = None if hi is None else G * hi + c
-        else:
-            plo = None if hi is None else G * hi + c
-            phi = None if lo is None else G * lo + c
+        _lo, _hi, excl = self.form_itv(qkey, q)
+        plo, phi = self.range_of(p)
         s = set()
         if plo is None or plo < 0:
             s.add(-1)
@@ -1274,7 +1267,11 @@ class Interp:
                 tb = (max(tb[0], old[0]), min(tb[1], old[1]))
             if tb[0] > tb[1]:
                 raise Infeasible()
-            st._jset('bounds', T, tb)
+            if tb[0] == tb[1]:
+                Tp = pconst(tb[0])
+                R = padd(A, pscale(B, tb[0]), -1)
+            else:
+                st._jset('bounds', T, tb)
         # remainder facts: sign follows the dividend, magnitude below |B|
         if sa == 1:      # A >= 0
             st.assume(R, NONNEG)
